@@ -551,6 +551,64 @@ fn instruction_audit(r: &mut Rep) {
 }
 
 /// the same object used 70,000 times: call number k behaves like call number 1 (no counter, cache or warm-up effect)
+/// values of up to `k` set bits (and their complements) of a `bits`-wide word
+fn few_bit_values(bits: u32, k: u32) -> Vec<u32> {
+    let mask = if bits == 32 { u32::MAX } else { (1u32 << bits) - 1 };
+    let mut v = vec![0u32, mask];
+    for a in 0..bits {
+        v.push(1 << a);
+        for b in 0..a {
+            if k >= 2 {
+                v.push(1 << a | 1 << b);
+            }
+            for c in 0..b {
+                if k >= 3 {
+                    v.push(1 << a | 1 << b | 1 << c);
+                }
+            }
+        }
+    }
+    let n = v.len();
+    for i in 0..n {
+        v.push(!v[i] & mask);
+    }
+    v.sort_unstable();
+    v.dedup();
+    v
+}
+
+/// the transferred value is the given value on EVERY port: a port number x value cross product (`k` = set bits per value)
+pub fn value_sweep(r: &mut Rep, port: u16, k: u32) {
+    macro_rules! width {
+        ($ty:ty, $bits:expr) => {{
+            let vals: Vec<u32> = if $bits == 8 { (0..256).collect() } else { few_bit_values($bits, k) };
+            let mut w = PortWriteOnly::<$ty>::new(port);
+            let mut rd = PortReadOnly::<$ty>::new(port);
+            let mut rw = Port::<$ty>::new(port);
+            for &v in &vals {
+                let (_, ev) = one(false, || unsafe { w.write(v as $ty) });
+                cpu().port_in = v ^ 0xffff_0000u32.rotate_left($bits);
+                let exp = cpu().port_in & (u32::MAX >> (32 - $bits));
+                let (rv, ev2) = one(false, || unsafe { rd.read() });
+                let (_, ev3) = one(false, || unsafe { rw.write(v as $ty) });
+                r.transitions += 3;
+                if ev != [Ev::Out(port, $bits, v)] || ev3 != [Ev::Out(port, $bits, v)] {
+                    r.viol(&format!("C18|Port<u{}>::write|transfers-another-value-than-the-given-one-(port-x-value-sweep)", $bits), &format!("portvals {} {}", port, k), &format!("value {:#x}: {:x?} {:x?}", v, ev, ev3));
+                    break;
+                }
+                if ev2 != [Ev::In(port, $bits, exp)] || rv != Ok(exp as $ty) {
+                    r.viol(&format!("C18|Port<u{}>::read|returns-another-value-than-the-device-supplied-(port-x-value-sweep)", $bits), &format!("portvals {} {}", port, k), &format!("value {:#x}: {:x?} {:x?}", exp, rv, ev2));
+                    break;
+                }
+            }
+            r.ev(true);
+        }};
+    }
+    width!(u8, 8);
+    width!(u16, 16);
+    width!(u32, 32);
+}
+
 fn repetition(r: &mut Rep) {
     macro_rules! rep {
         ($ty:ty, $bits:expr, $mask:expr) => {{
@@ -588,6 +646,8 @@ pub fn run(a: &Args) {
             repetition(&mut r);
         } else if t[0] == "portsite" {
             regalloc_sites(&mut r);
+        } else if t[0] == "portvals" {
+            value_sweep(&mut r, t[1].parse().unwrap(), t[2].parse().unwrap());
         } else if t[0] == "portseq" {
             sequences(&mut r, t[1].parse().unwrap(), t[4] == "true");
         } else {
@@ -617,6 +677,15 @@ pub fn run(a: &Args) {
     }
     alpha.sort_unstable();
     alpha.dedup();
+    // port x value cross product: every port with all values of up to two set bits (and complements, every byte), the
+    // port alphabet with up to three
+    fault_mode_on();
+    for p in 0..=u16::MAX {
+        if p as usize % a.nshards == a.shard && (a.thorough() || p % 8 == 0 || alpha.binary_search(&p).is_ok()) {
+            let k = if alpha.binary_search(&p).is_ok() { 3 } else if a.thorough() { 2 } else { 1 };
+            guarded(&mut r, "C18|Port|unexpected-panic", || format!("portvals {} {}", p, k), |r| value_sweep(r, p, k));
+        }
+    }
     for (i, &p) in alpha.iter().enumerate() {
         if i % a.nshards == a.shard {
             guarded(&mut r, "C18|Port|unexpected-panic", || format!("port {} 8 0x0 true", p), |r| port_case(r, p, true));
